@@ -1,6 +1,6 @@
 CONSTANTS N = 2  Tokens = {"t1"}  Outcomes = {"ok", "err"}  Disabled = TRUE  MaxSteps = 10  Variant = "code"
 SPECIFICATION Spec
 VIEW view
-INVARIANTS TypeOK Counter HealthyIff
+INVARIANTS TypeOK Counter Clock HealthyIff
 PROPERTIES OneSuccessRestores NoCheckAfterExit
 CHECK_DEADLOCK FALSE
